@@ -14,9 +14,37 @@ def overlap(w, rng):
         w.scans = w.scans + [w.scans[0]]
 
 
+ODD = [b"..\\..\\..\\escaped.bin", b"a\\b", b"..\\x", b"...", b"..a", b"a..", b" ", b"~", b"-x", b"*", b"con", b".hidden", b"a:b", b"%2e%2e", b"x\\..\\..\\y"]
+
+
+def odd_names(w, rng):
+    """Rename one file's last path component (or the torrent name) to an odd but loadable token and
+    keep a correct candidate on disk, so that the writer really runs for it."""
+    import worldgen
+    if not w.torrents:
+        return
+    i = rng.randrange(len(w.torrents))
+    t = w.torrents[i]
+    tok = rng.choice(ODD)
+    files = t.files
+    name = t.name
+    if t.single or rng.random() < 0.3:
+        name = tok
+    else:
+        f = rng.choice([x for x in files if not x.pad])
+        f.path = list(f.path[:-1]) + [tok]
+    nt = worldgen.TorrentSpec(name, t.piece_length, files, t.single)
+    if any(nt.info_hash == u.info_hash for k, u in enumerate(w.torrents) if k != i):
+        return
+    w.torrents[i] = nt
+    for f in nt.files:
+        if not f.pad and f.length:
+            w.put_file((w.scans[0][0], b"odd_%d" % files.index(f)), f.content)
+
+
 correspondence, search, replay, ASSUMPTIONS = runbase.make(
     "C03", [oracles.c03],
-    [("std", 160, 1500, {}, None), ("overlap", 100, 1000, {}, overlap)],
+    [("std", 130, 1200, {}, None), ("overlap", 70, 800, {}, overlap), ("odd", 60, 500, {}, odd_names)],
     "generated worlds with bystander directories, scan directories overlapping / containing the export directory, both flag values; recursive before/after snapshot of the whole sandbox + every open mode from the fs-shim log; adversarial names are exercised at the loader (C10 stream) and here through documents that must not load",
     "good_op: every mutating operation targets the export image of a non-padding segment or its parent directories; target_*_shape: lexically inside export/<hex>/Data; candidate/index opens are read-only (Generated.v obligations)",
     ["no symbolic link inside an export subtree redirects a path (lexical confinement)"])
